@@ -10,9 +10,16 @@ TEXT = {
  'C01': ("Seeded generated-input search: canonical values of 20 consensus types are compared byte for byte with an independent reference encoder and round-tripped; layout-aware byte mutants of valid encodings must either be rejected or re-encode to exactly the input (which implies full consumption, one encoding per value and rejection of every non-canonical form); the eight named rejection classes are constructed on purpose; repository vectors anchor the reference.", "4 C01"),
  'C02': ("Seeded generated-input search with an independent SHA-256 and reference encoder: txid/wtxid/block hash equality on every generated shape plus every witness / non-witness single-field modification kind, each of which must leave / change the id; clear_witness checked for exactness and idempotence.", "4 C02"),
  'C03': ("Differential testing against an independent implementation of the three Elements sighash algorithms (anchored on the 20 pinned Elements Core vectors), on digests and exact signing messages, plus a metamorphic committed / not-committed table per (algorithm, hash type).", "4 C03"),
+ 'C04': ("Seeded generated-input search over balanced explicit transactions (asset mixes, confidential / explicit inputs, issuance pseudo-inputs, any non-empty marking, value magnitudes 1..2^60, blinder RNG from the tape); the oracle is the round trip the statement names: blind Ok, amount verification Ok, every marked output unblinds with the receiver key to the original secrets and the reported factors, which reproduce both commitments.", "4 C04"),
+ 'C05': ("Fault enumeration on generated verifying bases: every applicable position of every tamper class named by the statement must turn verification into an error (UtxoInputLenMismatch for a wrong count), plus a biconditional oracle (own per-asset balance, zero-value admissibility) on generated all-explicit transactions and exact-value / exact-asset proof negatives.", "4 C05"),
+ 'C06': ("Generated addresses over every payload kind, witness version, program length, blinder and network compared character for character with independent base58check / bech32(m) / blech32(m) encoders and round-tripped in both cases; 17 classes of near-valid strings built with the reference encoders are judged by an independent reference parser; every accepted string is checked for the payload invariant and for naming exactly one network.", "4 C06"),
+ 'C07': ("Generated well-formed PSETs over every optional field family round-trip through bytes and base64 (tap trees compared leaf by leaf, ELIP-100/102 accessors after a hop); raw key/value re-framings and byte mutants of valid encodings and of the repository vectors must either be rejected or satisfy the decode-encode fixpoint; duplicates, missing mandatory fields, count mismatches and invalid preimages must be rejected.", "4 C07"),
+ 'C08': ("Generated well-formed transactions through from_tx/extract_tx; generated PSETs against a field-by-field reference extraction; stateful histories of updater / signer / finalizer operations with the unique id compared after every step with the initial one and with the harness's unsigned-transaction id; complete enumeration of all 341 lock-time kind assignments against the BIP370 reference.", "4 C08"),
  'C11': ("Generated inputs over outpoints, contract hashes, nonces and amount kinds; the three representations (TxIn, PSET input, extracted transaction) and the AssetId constructors are compared with the harness's own derivation; JSON contracts are re-rendered with permuted keys / whitespace and, for the plain subset, hashed independently.", "4 C11"),
  'C12': ("Generated transactions and blocks with emphasised shapes; every size figure is compared with lengths of the independent reference encoding.", "4 C12"),
  'C13': ("Model-based testing over operation histories: one shared SighashCache against a fresh cache per query (and against the C03 reference), with witness_mut updates and One-vs-All probes interleaved.", "4 C13"),
+ 'C15': ("Complete enumeration of all 197 tree shapes up to 7 leaves and of every depth sequence of length <= 5 over depths 0..5 (with leaf/hidden masks), plus random trees up to 40 leaves with duplicates, hidden nodes, mutated histories and depth-limit chains, and Huffman weight vectors; oracles: independent merkle root / tweak / output key (P + t*G via point addition), control-block bytes, verification positives and ten negative mutations per leaf, acceptance iff valid DFS sequence, optimal Huffman cost and monotonicity.", "4 C15"),
+ 'C17': ("Complete enumeration of every one- and two-character replacement (data part incl. version character and checksum, and the human-readable part) for representative addresses of every checksum variant and length class, each of which must fail to parse under Address::from_str and under all three networks; fresh addresses are sampled with random corruptions.", "4 C17"),
  'C18': ("Complete enumeration of every leaf count up to the bound (with leaf-flip and leaf-swap perturbations) against the definitional level-by-level tree over the harness's own SHA-256 compression function, plus sampled counts up to 70000.", "4 C18"),
  'C19': ("Generated full / compact / null parameter sets and headers; both root implementations, the compact form and the header root are compared with the harness's two-level fast-merkle commitment; every single-parameter change must change the root.", "4 C19"),
 }
